@@ -20,7 +20,7 @@ import json
 
 import impl
 import gens
-from wire import Ok, Err, oracle_batch
+from wire import Ok, Err, Some, oracle_batch
 from lxml import etree
 from pycaption import (DFXPWriter, DFXPReader, SRTReader, WebVTTReader, SAMIReader, SCCReader, MicroDVDReader,
                        SCCWriter, CaptionSet, CaptionList, Caption, CaptionNode)
@@ -36,6 +36,7 @@ WRITERS = {"main": DFXPWriter, "single": SinglePositioningDFXPWriter, "legacy": 
 VALUE_ATOMS = ["&", "<", ">", '"', "'", "&amp;", "&lt;", "&#60;", "&quot;", ";", "#", "a", "b c", "é", "中", "\U0001F600",
                " ", "=", "/", "]]>", "<!--", "-->", "<br/>", "</span>", "x", "1c", "Arial", "#ff0000", "\t", "\n"]
 NCNAMES = ["k1", "a.b", "é1", "_x-1", "default", "p", "Style2", "z"]
+REGION_LIKE = ["bottom", "r0", "r1"]         # style ids that collide with region ids (known finding)
 LANGS = ["en-US", "fr", "de", 'e"n&', "a<b>", "x'y\"z", "pt-BR", "und"]
 
 
@@ -62,7 +63,7 @@ def norm_attr(v):
 class Acc:
     def __init__(self):
         self.res = {"evaluations": 0, "nontrivial": set(), "violations": [], "disagreements": [], "distribution": {},
-                    "streams": 4, "notes": []}
+                    "streams": 5, "notes": []}
 
     def count(self, k, n=1):
         d = self.res["distribution"]
@@ -335,7 +336,14 @@ def layout_pool():
     mk = [lambda: None, lambda: None, lambda: Layout(origin=o1), lambda: Layout(origin=o1), lambda: Layout(origin=o2),
           lambda: Layout(extent=ext), lambda: Layout(origin=o1, extent=ext, padding=pad), lambda: Layout(alignment=al),
           lambda: Layout(), lambda: DFXP_DEFAULT_REGION,
-          lambda: Layout(alignment=Alignment(HorizontalAlignmentEnum.CENTER, VerticalAlignmentEnum.BOTTOM))]
+          lambda: Layout(alignment=Alignment(HorizontalAlignmentEnum.CENTER, VerticalAlignmentEnum.BOTTOM)),
+          # alignments with only ONE component (a DFXP input with an unknown tts:textAlign plus tts:displayAlign
+          # yields the first): no attribute may be written with the value None
+          lambda: Layout(alignment=Alignment(None, VerticalAlignmentEnum.TOP)),
+          lambda: Layout(alignment=Alignment(HorizontalAlignmentEnum.RIGHT, None)),
+          lambda: Layout(origin=o2, alignment=Alignment(None, VerticalAlignmentEnum.CENTER)),
+          lambda: Layout(extent=ext, alignment=Alignment(HorizontalAlignmentEnum.LEFT, None)),
+          lambda: Layout(alignment=Alignment(None, None))]
     return mk
 
 
@@ -379,6 +387,68 @@ def abstract_layouts(cs):
     return [ab(cs.layout_info), langs]
 
 
+def collides(cs):
+    """a written style whose id is also a region id ("bottom", "r<k>"): the two share the XML ID space"""
+    return any(re.fullmatch(r"bottom|r\d+", sid) and st for sid, st in cs.get_styles())
+
+
+def tag_collision(v, cs):
+    if collides(cs) and (v["kind"] == "ids-not-unique" or "already defined" in v.get("what", "")):
+        v["kind"] = "ids-not-unique"
+        v["shape"] = "style-id-equals-region-id"
+    return v
+
+
+def content_pairs(d):
+    return [[k, v if isinstance(v, str) else "x"] for k, v in d.items() if isinstance(k, str)]
+
+
+def abstract_document(cs):
+    """-> wire value of coq dset (model/DfxpDoc.v) for the caption set the RegionCreator saw"""
+    rset = abstract_layouts(cs)
+    langs = []
+    for li, lang in enumerate(cs.get_languages()):
+        caps = []
+        for ci, c in enumerate(cs.get_captions(lang)):
+            rc = rset[1][li][1][ci]
+            ns = [[rn[0], rn[1], content_pairs(n.content) if (n.type_ == CaptionNode.STYLE and isinstance(n.content, dict)) else []]
+                  for rn, n in zip(rc[1], c.nodes)]
+            caps.append([rc[0], [content_pairs(c.style)] if c.style else [], ns])
+        langs.append([rset[1][li][0], caps])
+    styles = [[sid, content_pairs(st)] for sid, st in cs.get_styles()]
+    return [rset[0], styles, langs]
+
+
+def span_dicts_differ(acc, inp, root, cs, written, want_refs, inline_on):
+    """the attribute dictionary of every positioned <span> (style attributes, region, inline positioning, in order)
+    against model/DfxpDoc.span_attributes (requests 705 + 710)"""
+    from pycaption.dfxp.base import _convert_layout_to_attributes
+    spans = []
+    for lang in cs.get_languages():
+        for c in cs.get_captions(lang):
+            for n in c.nodes:
+                if n.type_ == CaptionNode.STYLE and n.start and n.layout_info:
+                    inline = [[k, v] for k, v in _convert_layout_to_attributes(n.layout_info).items()] if inline_on else []
+                    spans.append((content_pairs(n.content), inline))
+    regions = [sp for dv in want_refs for p in dv[1] for sp in p[1]]
+    got = [[[attr_name(e, k), v] for k, v in e.attrib.items()] for e in root.iter(TT + "span") if e.get("region")]
+    if len(spans) != len(regions) or len(got) != len(spans):
+        acc.res["disagreements"].append({"stream": "R-span", "input": inp, "what": "number of positioned spans",
+                                         "impl": len(got), "model": [len(spans), len(regions)]})
+        return True
+    if not spans:
+        return False
+    sattrs = oracle_batch([(705, [c, written]) for c, _ in spans])
+    want = oracle_batch([(710, [sa, Some(r), inl]) for sa, r, (_, inl) in zip(sattrs, regions, spans)])
+    if want != got:
+        acc.res["disagreements"].append({"stream": "R-span", "input": inp, "impl": got, "model": want,
+                                         "what": "span attribute dictionary differs from model span_attributes"})
+        return True
+    acc.count("R_positioned_spans", len(spans))
+    acc.count("R_positioned_spans_with_inline_attributes", len(spans) if inline_on else 0)
+    return False
+
+
 def rid(x):
     return "bottom" if x == -1 else "r%d" % x
 
@@ -389,15 +459,24 @@ def stream_regions(ctx, acc):
     for _ in range(ctx.n(250, 5000)):
         nl = rng.choice([1, 1, 2, 3])
         d = {}
+        styles = {}
+        for name in rng.sample(NCNAMES, rng.randint(0, 4)) + ([rng.choice(REGION_LIKE)] if rng.random() < 0.04 else []):
+            styles[name] = rand_style(rng, allow_empty=True) if rng.random() < 0.85 else {}
+            if styles and rng.random() < 0.3:
+                styles[name]["class"] = rng.choice(list(styles))
+        names = list(styles) + ["missing", "default", "p"]
         for li in range(nl):
             caps = []
             for ci in range(rng.randint(1, 3)):
-                nodes = rand_nodes(rng)
+                nodes = [(n[0], dict(n[1], **{"class": rng.choice(names)})) if n[0] == "start" and rng.random() < 0.35 else n
+                         for n in rand_nodes(rng)]
                 lays = [rng.choice(pool)() if rng.random() < 0.4 else None for _ in nodes]
-                caps.append(Caption(ci * 2000000, ci * 2000000 + 1000000, to_caption_nodes(nodes, lays),
-                                    layout_info=rng.choice(pool)()))
+                kw = {"layout_info": rng.choice(pool)()}
+                if rng.random() < 0.5:
+                    kw["style"] = dict(rand_style(rng, allow_empty=False), **({"class": rng.choice(names)} if rng.random() < 0.7 else {}))
+                caps.append(Caption(ci * 2000000, ci * 2000000 + 1000000, to_caption_nodes(nodes, lays), **kw))
             d[LANGS[li]] = CaptionList(caps, layout_info=rng.choice(pool)())
-        cs = CaptionSet(d, layout_info=rng.choice(pool)())
+        cs = CaptionSet(d, styles=styles, layout_info=rng.choice(pool)())
         wname = rng.choice(["main", "main", "single"])
         kw = {"write_inline_positioning": rng.random() < 0.4}
         if rng.random() < 0.3:
@@ -413,7 +492,8 @@ def stream_regions(ctx, acc):
         try:
             root = etree.fromstring(out.v.encode("utf-8"))
         except etree.XMLSyntaxError as e:
-            acc.res["violations"].append({"kind": "ill-formed-xml", "what": str(e), "input": inp, "document": out.v[:3000], "replay": "none"})
+            acc.res["violations"].append(tag_collision({"kind": "ill-formed-xml", "what": str(e), "input": inp,
+                                                        "document": out.v[:3000], "replay": "none"}, Recorder.seen))
             continue
         m = oracle_batch([(706, abstract_layouts(Recorder.seen))])[0]
         want_defined = [rid(x) for x in m[1]]
@@ -422,8 +502,22 @@ def stream_regions(ctx, acc):
         got_refs = [[dv.get("region"), [[p.get("region"), [s.get("region") for s in p.iter(TT + "span") if s.get("region")]]
                                         for p in dv.iter(TT + "p")]] for dv in root.iter(TT + "div")]
         v = check_document(root, out.v)
+        summ = oracle_batch([(709, abstract_document(Recorder.seen))])[0]
+        body = root.find(TT + "body")
+        got_summ = [[e.get(XMLNS + "id") for e in root.iter() if e.get(XMLNS + "id") is not None],
+                    [e.get(XMLNS + "id") for e in root.iter(TT + "style") if e.get(XMLNS + "id") is not None],
+                    [e.get(XMLNS + "id") for e in root.iter(TT + "region") if e.get(XMLNS + "id") is not None],
+                    [e.get("style") for e in root.iter() if e.get("style") is not None],
+                    [e.get("region") for e in body.iter() if e.get("region") is not None]]
+        if not summ[5]:
+            acc.count("R_style_id_equals_a_region_id(outside dom_doc)")
         if v:
-            acc.res["violations"].append(dict(v, input=inp, document=out.v[:3000], replay="none"))
+            acc.res["violations"].append(dict(tag_collision(v, Recorder.seen), input=inp, document=out.v[:3000], replay="none"))
+        elif got_summ != summ[:5]:
+            acc.res["disagreements"].append({"stream": "R-document", "input": inp, "impl": got_summ, "model": summ[:5],
+                                             "what": "ids / references differ from the whole-traversal model (DfxpDoc)"})
+        elif span_dicts_differ(acc, inp, root, Recorder.seen, summ[1], want_refs, kw.get("write_inline_positioning", False)):
+            pass
         elif got_defined != want_defined or got_refs != want_refs:
             acc.res["disagreements"].append({"stream": "R", "input": inp, "impl": [got_defined, got_refs],
                                              "model": [want_defined, want_refs], "what": "regions differ from the RegionCreator model"})
@@ -525,7 +619,7 @@ def api_set(ctx):
     pool = layout_pool()
     d = {}
     styles = {}
-    for name in rng.sample(NCNAMES, rng.randint(0, 3)):
+    for name in rng.sample(NCNAMES, rng.randint(0, 3)) + ([rng.choice(REGION_LIKE)] if rng.random() < 0.03 else []):
         styles[name] = rand_style(rng, allow_empty=False) if rng.random() < 0.85 else {}
     for lang in rng.sample(LANGS, rng.choice([1, 1, 2, 3])):
         caps = []
@@ -610,13 +704,14 @@ def stream_documents(ctx, acc):
             try:
                 root = etree.fromstring(out.v.encode("utf-8"))
             except etree.XMLSyntaxError as e:
-                acc.res["violations"].append({"kind": "ill-formed-xml", "what": "lxml (strict) rejects the %s writer's output: %s" % (wname, e),
-                                              "input": inp, "document": out.v[:4000], "replay": "none"})
+                acc.res["violations"].append(tag_collision({"kind": "ill-formed-xml", "what": "lxml (strict) rejects the %s writer's output: %s" % (wname, e),
+                                                            "input": inp, "document": out.v[:4000], "replay": "none"}, cs))
                 continue
             v = check_document(root, out.v, written, ps)
             if v:
                 if wname == "legacy" and sum(len(x) for x in ps) == 0:
                     v["shape"] = "legacy-writer-no-caption-written"
+                tag_collision(v, cs)
                 acc.res["violations"].append(dict(v, input=inp, document=out.v[:4000], replay="none"))
             else:
                 acc.res["nontrivial"].add(("D", src, wname, out.v))
@@ -630,12 +725,80 @@ def stream_documents(ctx, acc):
                         acc.count("D_adjacent_same_end_different_start", sum(1 for a, b in pairs if a.start != b.start and a.end == b.end))
 
 
+VOCABS = [["p"], ["default"], ["s1"], [], ["p", "s1"], ["default", "k1"]]
+
+
+def history_set(rng, vocab):
+    """a caption set whose style ids are exactly `vocab`; styled (known / unknown class) and unstyled captions"""
+    pool = layout_pool()
+    styles = {name: rand_style(rng, allow_empty=False) for name in vocab}
+    d = {}
+    for lang in rng.sample(LANGS, rng.choice([1, 1, 2])):
+        caps = []
+        for ci in range(rng.randint(1, 3)):
+            nodes = [(n[0], dict(n[1], **{"class": rng.choice(vocab + ["p", "default", "zz"])})) if n[0] == "start" and rng.random() < 0.3 else n
+                     for n in rand_nodes(rng)]
+            lays = [rng.choice(pool)() if rng.random() < 0.25 else None for _ in nodes]
+            kw = {"layout_info": rng.choice(pool)()}
+            r = rng.random()
+            if r < 0.35 and vocab:
+                kw["style"] = {"class": rng.choice(vocab)}
+            elif r < 0.5:
+                kw["style"] = dict(rand_style(rng, allow_empty=False), **{"class": rng.choice(["p", "default", "s1", "zz"])})
+            caps.append(Caption(ci * 2000000, ci * 2000000 + 1000000, to_caption_nodes(nodes, lays), **kw))
+        d[lang] = CaptionList(caps, layout_info=rng.choice(pool)())
+    return CaptionSet(d, styles=styles, layout_info=rng.choice(pool)())
+
+
+def stream_histories(ctx, acc):
+    """ONE writer object used for 2-4 write() calls on caption sets with different style-id vocabularies and layouts:
+    every document of the history is judged on its own (a stale per-writer flag such as 'a p style exists' shows up
+    as a style= reference that does not resolve)"""
+    rng = ctx.rng
+    fixed = [[["p"], ["s1"]], [["p"], []], [["default"], ["s1"], ["p"]], [["s1"], ["default"], [], ["p"]]]
+    hists = fixed + [[rng.choice(VOCABS) for _ in range(rng.randint(2, 4))] for _ in range(ctx.n(40, 800))]
+    for hist in hists:
+        for wname in ("main", "single", "legacy"):
+            kw = {}
+            if wname != "legacy" and rng.random() < 0.5:
+                kw["write_inline_positioning"] = True
+            w = WRITERS[wname](**kw)
+            for step, vocab in enumerate(hist):
+                cs = history_set(rng, vocab)
+                langs = cs.get_languages()
+                out = impl.call(lambda: w.write(cs))
+                acc.res["evaluations"] += 1
+                inp = {"history": hist, "step": step, "writer": wname, "options": kw, "set": gens.describe_capset(cs),
+                       "styles": repr(cs.get_styles())[:400]}
+                if not isinstance(out, Ok):
+                    acc.res["violations"].append({"kind": "write-raises", "what": "%s writer raised at step %d of a history" % (wname, step),
+                                                  "input": inp, "replay": "none"})
+                    break
+                ps = [[(c.start, c.end) for c in cs.get_captions(l)] for l in langs] if wname == "main" else \
+                    [runs(cs.get_captions(l)) for l in langs]
+                try:
+                    root = etree.fromstring(out.v.encode("utf-8"))
+                except etree.XMLSyntaxError as e:
+                    acc.res["violations"].append(tag_collision({"kind": "ill-formed-xml", "what": "step %d of a history on one %s writer: %s" % (step, wname, e),
+                                                                "input": inp, "document": out.v[:4000], "replay": "none"}, cs))
+                    continue
+                v = check_document(root, out.v, langs, ps)
+                if v:
+                    v["what"] = "step %d of a history %r on one %s writer object: %s" % (step, hist, wname, v["what"])
+                    acc.res["violations"].append(dict(tag_collision(v, cs), input=inp, document=out.v[:4000], replay="none"))
+                else:
+                    acc.res["nontrivial"].add(("H", wname, out.v))
+                    acc.count("H_documents_in_histories_ok")
+                    acc.count("H_step_ge_1", int(step >= 1))
+
+
 def run(ctx):
     acc = Acc()
     stream_values(ctx, acc)
     stream_payload(ctx, acc)
     stream_regions(ctx, acc)
     stream_documents(ctx, acc)
+    stream_histories(ctx, acc)
     res = acc.res
     res["samples"] = [x[1] for x in list(res["nontrivial"]) if x[0] == "S"][:5]
     res["rule"] = ("S: attribute values containing one of & < > \" '; P: distinct (writer, node lists) whose payload equals the "
